@@ -6,6 +6,8 @@ import (
 	"verifsim/hx"
 	"verifsim/simkern"
 	"verifsim/worlds/pipew"
+
+	"github.com/Query-farm/vgi-rpc-go/vgirpc"
 )
 
 // C02 — a pipe/socket session stays in frame after every request, good or bad.
@@ -23,8 +25,14 @@ func C02(e *simkern.Env) {
 	if e.Tier == "thorough" {
 		maxOps = 24
 	}
+	serverVersion := tp.Pick(0, 1)
+	sv := ""
+	if serverVersion == 1 {
+		sv = "3.4.5"
+	}
 	ops := pipew.GenOps(tp, pipew.GenCfg{MinOps: 1, MaxOps: maxOps, Bad: true, BadStream: true, FailBias: 5, InitFail: true,
-		Cancel: true, Cast: true, WriteAhead: true, Levels: true, MaxTurns: 5, NonceBase: 1000})
+		Cancel: true, Cast: true, WriteAhead: true, Levels: true, MaxTurns: 5, NonceBase: 1000, ServerVersion: sv})
+	e.Knob("server_protocol_version", sv)
 	kn := pipew.DrawKnobs(tp)
 	e.Knob("frag", kn.Frag)
 	e.Knob("yield_on_write", kn.YieldOnWrite)
@@ -34,7 +42,11 @@ func C02(e *simkern.Env) {
 		sim := simkern.NewSim(tp, e.Trace)
 		defer sim.Close()
 		hx.Rec.Reset()
-		srv := pipew.NewServer(nil)
+		srv := pipew.NewServer(func(s *vgirpc.Server) {
+			if sv != "" {
+				s.SetProtocolVersion(sv)
+			}
+		})
 		sess := &pipew.Session{Srv: srv, Ops: ops}
 		reason := pipew.RunSession(sim, sess, kn, 40000)
 		c02Judge(e, sess, reason)
